@@ -40,11 +40,20 @@ class _AttachClient(BaseClient):
 
     def assume(self, test, branch, S):
         # `k != "parent"` / `k == "parent"` / `k in ("parent",)`: inside the branch where k cannot be "parent" a setattr does not attach
-        if isinstance(test, ast.Compare) and len(test.ops) == 1 and isinstance(test.left, ast.Name) and isinstance(test.comparators[0], ast.Constant) \
-                and test.comparators[0].value == "parent":
-            is_ne = isinstance(test.ops[0], ast.NotEq)
-            if isinstance(test.ops[0], (ast.Eq, ast.NotEq)) and (branch == is_ne):
-                return frozenset(S | {("NOTPARENT", test.left.id)})
+        if isinstance(test, ast.Compare) and len(test.ops) == 1:
+            a, b = test.left, test.comparators[0]
+            if isinstance(a, ast.Constant) and isinstance(b, ast.Name):      # `"parent" != k` is the same test
+                a, b = b, a
+            if isinstance(a, ast.Name) and isinstance(b, ast.Constant) and b.value == "parent":
+                is_ne = isinstance(test.ops[0], ast.NotEq)
+                if isinstance(test.ops[0], (ast.Eq, ast.NotEq)) and (branch == is_ne):
+                    return frozenset(S | {("NOTPARENT", a.id)})
+            # `k not in ("parent",)` / `k in (...)` with "parent" among the literals
+            if isinstance(a, ast.Name) and isinstance(test.ops[0], (ast.In, ast.NotIn)) and isinstance(b, (ast.Tuple, ast.List, ast.Set)) \
+                    and all(isinstance(e, ast.Constant) for e in b.elts):
+                has = any(e.value == "parent" for e in b.elts)
+                if (has and branch == isinstance(test.ops[0], ast.NotIn)) or (not has and branch == isinstance(test.ops[0], ast.In)):
+                    return frozenset(S | {("NOTPARENT", a.id)})
         if isinstance(test, ast.Call) and isinstance(test.func, ast.Attribute) and test.func.attr == "startswith" and isinstance(test.func.value, ast.Name) \
                 and test.args and isinstance(test.args[0], ast.Constant) and not "parent".startswith(str(test.args[0].value)) and branch:
             return frozenset(S | {("NOTPARENT", test.func.value.id)})
